@@ -6,7 +6,7 @@ namespace LibInj.Sqli
 open LibInj
 
 theorem foldSpecial_ok' (f : FS) (hf : FInv f) :
-    ∃ f', foldSpecial f = .ok f' ∧ FInv f' ∧ Evol f f' ∧ (f' = f ∨ f'.pos < f.pos) := by
+    ∃ f', foldSpecial f = .ok f' ∧ FInv f' ∧ Evol f f' ∧ (f' = f ∨ f'.pos < f.pos) ∧ (∀ t ∈ f'.s.tv, t ∈ f.s.tv) := by
   obtain ⟨hs, hlp, hp6, hlc⟩ := hf
   unfold foldSpecial
   by_cases hp : f.pos ≥ maxTokens
@@ -21,15 +21,20 @@ theorem foldSpecial_ok' (f : FS) (hf : FInv f) :
         obtain ⟨s', hs', hinv', hi', hp'', _⟩ := tvSet_inv f.s hs 1 (by omega) t5 ht5
         simp only [hp', ↓reduceIte, h5, hs']
         have e := tvSet_eq hs'
-        refine ⟨_, rfl, ⟨hinv', by simp, by simp, hlc⟩, ?_, Or.inr (by show 2 < f.pos; omega)⟩
-        exact evol_set f _ 1 t5 (by rw [e]) (derived_mem (tvGet_some h5)) (by rw [e]) (by rw [e]) (by rw [e]) rfl rfl
+        refine ⟨_, rfl, ⟨hinv', by simp, by simp, hlc⟩, ?_, Or.inr (by show 2 < f.pos; omega), ?_⟩
+        · exact evol_set f _ 1 t5 (by rw [e]) (derived_mem (tvGet_some h5)) (by rw [e]) (by rw [e]) (by rw [e]) rfl rfl
+        · intro t ht
+          have ht' : t ∈ f.s.tv.set 1 t5 := by rw [e] at ht; exact ht
+          rcases List.mem_or_eq_of_mem_set ht' with h | h
+          · exact h
+          · rw [h]; exact List.mem_of_getElem? (tvGet_some h5)
       · simp only [hp', ↓reduceIte]
-        refine ⟨_, rfl, ⟨hs, by simp, by simp, hlc⟩, evol_same f _ rfl rfl rfl rfl rfl rfl, Or.inr (by show 1 < f.pos; omega)⟩
+        refine ⟨_, rfl, ⟨hs, by simp, by simp, hlc⟩, evol_same f _ rfl rfl rfl rfl rfl rfl, Or.inr (by show 1 < f.pos; omega), fun t h => h⟩
     | false =>
       simp only [Bool.false_eq_true, ↓reduceIte]
-      exact ⟨_, rfl, ⟨hs, hlp, hp6, hlc⟩, Evol.refl f, Or.inl rfl⟩
+      exact ⟨_, rfl, ⟨hs, hlp, hp6, hlc⟩, Evol.refl f, Or.inl rfl, fun t h => h⟩
   · simp only [hp, ↓reduceIte, pure, Except.pure]
-    exact ⟨_, rfl, ⟨hs, hlp, hp6, hlc⟩, Evol.refl f, Or.inl rfl⟩
+    exact ⟨_, rfl, ⟨hs, hlp, hp6, hlc⟩, Evol.refl f, Or.inl rfl, fun t h => h⟩
 
 /-- the loop condition of `fetch` -/
 def fetchCond (f : FS) (k : Nat) : Prop :=
